@@ -243,6 +243,12 @@ Proof.
   intros s Q HQ. unfold increase_flow_level. apply fwp_bind, fwp_get.
   destruct (sc_flow_level s =? FLOW_LEVEL_MAX)%N; [exact I|]. apply fwp_put, HQ. unfold skel, ssb, phi, tpn; sproj; repeat split; lia.
 Qed.
+Lemma ks_check_closer seq : kstep 0 (check_flow_closer (I:=strin) seq).
+Proof.
+  intros s Q HQ. unfold check_flow_closer. apply fwp_bind, fwp_get.
+  destruct (sc_ifms s) as [|st r]; [apply fwp_ret, HQ, skel_refl|]. cbv zeta.
+  destruct (Bool.eqb _ _); [apply fwp_ret, HQ, skel_refl|apply fwp_fail].
+Qed.
 Lemma ks_decr : kstep 0 (decrease_flow_level (I:=strin)).
 Proof.
   intros s Q HQ. unfold decrease_flow_level. apply fwp_bind, fwp_get.
@@ -269,6 +275,7 @@ Ltac ks_one :=
   | |- kstep _ remove_simple_key => apply ks_remove
   | |- kstep _ stale_simple_keys => apply ks_stale
   | |- kstep _ (end_implicit_mapping _) => apply ks_eim
+  | |- kstep _ (check_flow_closer _) => apply ks_check_closer
   | |- kstep _ increase_flow_level => apply ks_incr
   | |- kstep _ decrease_flow_level => apply ks_decr
   | |- kstep _ (roll_indent _ _ _ _) => apply ks_roll_indent
@@ -419,7 +426,7 @@ Qed.
 Lemma fw_fetch_flow_collection_end F seq s :
   fuel_ok F s -> fnth s 0 <> 0%N -> 1 <= lk s -> fwp (fetch_flow_collection_end str_ops F seq) (cpost s) s.
 Proof using H_ws Fr_ws.
-  intros FO NZ LK. unfold fetch_flow_collection_end. sks. sks. sks. sks. sks. wmark.
+  intros FO NZ LK. unfold fetch_flow_collection_end. sks. sks. sks. sks. sks. sks. wmark.
   wb. apply fw_skip_non_blank. intros s6 A6 L6 S6 P6. pose proof (tl_rl_lt _ _ A6 ltac:(nz)) as R6. cbv beta.
   wb. eapply use_le; [apply Fr_ws|apply H_ws; fok|]. intros tw s7 R7 L7 S7 P7. cbv beta.
   sks. wmark. fin.
